@@ -70,6 +70,22 @@ extern EbMemoryMapEntry *memory_map_end_address;
         svt_dec_lib_malloc_count++;                                                   \
     } while (0)
 #endif
+/* Register an OS object (mutex, semaphore) created for the decoder in the decoder memory map,
+ * so that svt_av1_dec_deinit destroys it together with everything else the session owns */
+#define EB_ADD_DEC_OBJECT(pointer, pointer_class)                        \
+    do {                                                                 \
+        if (pointer) {                                                   \
+            EbMemoryMapEntry *node = malloc(sizeof(EbMemoryMapEntry));   \
+            if (node == NULL)                                            \
+                return EB_ErrorInsufficientResources;                    \
+            node->ptr_type     = pointer_class;                          \
+            node->ptr          = pointer;                                \
+            node->prev_entry   = svt_dec_memory_map;                     \
+            svt_dec_memory_map = node;                                   \
+            (*svt_dec_memory_map_index)++;                               \
+        }                                                                \
+    } while (0)
+
 #define EB_MALLOC_DEC(type, pointer, n_elements, pointer_class)                       \
     do {                                                                              \
         pointer = malloc(n_elements);                                                 \
